@@ -68,6 +68,12 @@ impl EventAccessTracker
     }
 }
 
+#[cfg(feature = "verif")]
+impl EventAccessTracker
+{
+    pub(crate) fn verif_state(&self) -> (usize, bool) { (self.prepared.len(), self.currently_reacting) }
+}
+
 impl Default for EventAccessTracker
 {
     fn default() -> Self
